@@ -122,6 +122,8 @@ def _mods():
 # depend on it.  10 + n = level n with a stderr whose write() raises EIO (a forcibly closed terminal).
 LEVELS = [0, 0, 3, 0, 2, 0, 13, 1]
 CLOCKS_ROTATION = ['none', 'small', 'fwd-hour', 'back-hour', 'slow-2ms']
+# exit status of the routing tool, independent of what it printed (negative: killed by that signal)
+EXIT_ROTATION = [0, 1, 0, 2, 255, 0, -15]
 _case_counter = [0]
 _level_shift = [0]
 
@@ -130,10 +132,11 @@ _table_counter = [0]
 
 
 def next_clock():
-    """Time profile of the next table case: rotation by a per-run counter shifted by the seed (never ctx.rng)."""
-    c = CLOCKS_ROTATION[(_table_counter[0] + _level_shift[0]) % len(CLOCKS_ROTATION)]
+    """(time profile, tool exit status) of the next table case: rotations by a per-run counter shifted by the
+    seed (never ctx.rng); the periods 5 and 7 (and 8 for the level) are coprime, so all combinations occur."""
+    i = _table_counter[0] + _level_shift[0]
     _table_counter[0] += 1
-    return c
+    return CLOCKS_ROTATION[i % len(CLOCKS_ROTATION)], EXIT_ROTATION[i % len(EXIT_ROTATION)]
 
 
 def next_level():
@@ -278,6 +281,7 @@ class FakePopen:
     output = b''
     calls = []
     clock = None
+    rc = 0          # what wait() reports, whatever was printed
 
     def __init__(self, argv, stdout=None, env=None, **kw):
         FakePopen.calls.append(list(argv))
@@ -285,8 +289,9 @@ class FakePopen:
         self.returncode = None
 
     def wait(self, *a, **k):
-        self.returncode = 0
-        return 0
+        if self.returncode is None:
+            self.returncode = FakePopen.rc
+        return self.returncode
 
     def poll(self):
         return self.returncode
@@ -362,6 +367,7 @@ MODEL_TOOL = {'i': 'i', 'n': 'n', 'x': 'x', 'b': 'i'}
 
 REAL_POPEN = subprocess.Popen          # taken before anything is patched
 CAT = shutil.which('cat')
+SH = shutil.which('sh') if shutil.which('cat') else None
 HANG_TIMEOUT = 8.0                     # seconds a real-process server.main may take before it counts as hung
 
 
@@ -373,7 +379,10 @@ class RealToolPopen:
 
     def __new__(cls, argv, stdout=None, env=None, **kw):
         FakePopen.calls.append(list(argv))
-        if CAT:
+        rc = FakePopen.rc
+        if rc != 0 and SH:
+            cmd = [SH, '-c', 'cat "$1"; ' + (('kill -%d $$' % -rc) if rc < 0 else ('exit %d' % rc)), 'sh', RealToolPopen.path]
+        elif CAT:
             cmd = [CAT, RealToolPopen.path]
         else:
             cmd = [sys.executable, '-c', 'import sys,shutil; shutil.copyfileobj(open(sys.argv[1],"rb"), sys.stdout.buffer)',
@@ -410,7 +419,7 @@ def close_children():
     RealToolPopen.children = []
 
 
-def run_server(tool, output, verbose=0, real=False, clock='none'):
+def run_server(tool, output, verbose=0, real=False, clock='none', rc=0):
     """The real `server.main(auto_nets=True)` up to and including `mux.send(0, CMD_ROUTES, …)`, with the
     server-side verbosity `verbose` (what `sshuttle -v` forwards).  `real=False`: the routing tool is an
     in-memory Popen stand-in; `real=True`: it is a child process writing to a pipe, `server.main` runs in a
@@ -433,6 +442,7 @@ def run_server(tool, output, verbose=0, real=False, clock='none'):
     out = FakeStdout()
     FakePopen.output = output
     FakePopen.calls = []
+    FakePopen.rc = int(rc)
     old_stdout, old_stderr = sys.stdout, sys.stderr
     old_prefix = helpers.logprefix
     tmp = None
@@ -491,6 +501,7 @@ def run_server(tool, output, verbose=0, real=False, clock='none'):
         return status, wire
     finally:
         p.restore()
+        FakePopen.rc = 0
         helpers.verbose = 0
         helpers.logprefix = old_prefix
         sys.stdout, sys.stderr = old_stdout, old_stderr
@@ -504,7 +515,7 @@ def run_server(tool, output, verbose=0, real=False, clock='none'):
                     pass
 
 
-def line_real(tool, line, level=0, clock='none'):
+def line_real(tool, line, level=0, clock='none', rc=0):
     """`_list_routes` and `list_routes` of the real code on a one-line tool output."""
     ssnet, client, server, helpers = _mods()
     p = Patches()
@@ -515,6 +526,7 @@ def line_real(tool, line, level=0, clock='none'):
         p.set(server, 'which', lambda name, *a: ('/sbin/' + name) if name in TOOLS[tool] else None)
         set_diag(level)
         clock_undo = set_clock(clock, (server, helpers))
+        FakePopen.rc = int(rc)
         FakePopen.output = line
         try:
             kept = list(server.list_routes())
@@ -532,6 +544,7 @@ def line_real(tool, line, level=0, clock='none'):
         return 'skip'
     finally:
         clear_clock(clock_undo)
+        FakePopen.rc = 0
         p.restore()
         helpers.verbose = 0
         sys.stderr = old_stderr
@@ -1056,7 +1069,7 @@ def split_lines(output):
 
 
 def table_case(ctx, tool, lines, intents, flags, perline=True, label='table', verbose=None, real=False, regen=None,
-               listen=None, plan=None, clock=None):
+               listen=None, plan=None, clock=None, rc=None):
     """One routing table end to end.  `intents[i]` belongs to `lines[i]`.  `verbose`: server-side verbosity;
     `real`: the routing tool is a real child process on a real pipe; `regen`: how replay rebuilds a big table."""
     ssnet, client, server, helpers = _mods()
@@ -1064,9 +1077,12 @@ def table_case(ctx, tool, lines, intents, flags, perline=True, label='table', ve
     if verbose is None:
         verbose = level
     ctx.hist('level:%d' % verbose)
-    rot = next_clock()                       # how the clock moves while the tool's output is read
+    rot, rot_rc = next_clock()               # how the clock moves while the tool's output is read; the tool's exit status
     if clock is None:
         clock = rot
+    if rc is None:
+        rc = rot_rc
+    ctx.hist('tool-exit:%d' % rc)
     if real:
         clock = 'none'                       # a real child process runs on the real clock
     ctx.hist('clock:' + clock)
@@ -1076,21 +1092,21 @@ def table_case(ctx, tool, lines, intents, flags, perline=True, label='table', ve
     raised_line = None
     if perline:
         for ln, it in zip(lines, intents):
-            out = line_real(tool, ln, verbose, clock)
+            out = line_real(tool, ln, verbose, clock, rc)
             log.add('l ' + hexb(ln), out)
             ctx.count()
             cls = out.split()[0]
             ctx.hist('%s:%s:%s' % (tool, it[0], cls))
             if cls != 'skip' or ln.strip():
                 log.nontrivial = True
-            line_oracle(ctx, tool, ln, it, out, verbose, clock)
+            line_oracle(ctx, tool, ln, it, out, verbose, clock, rc)
             if cls == 'raise':
                 raised_line = ln
                 break
     else:
         for ln in lines:
             log.ins.append('q ' + hexb(ln))
-    status, wire = run_server(tool, output, verbose=verbose, real=real, clock=clock)
+    status, wire = run_server(tool, output, verbose=verbose, real=real, clock=clock, rc=rc)
     ctx.hist('server:verbose=%d:%s' % (verbose, 'real-process' if real else 'in-memory'))
     if FakePopen.calls[:1] != ([ARGV[tool]] if tool != 'x' else []):
         ctx.violation('C17:list_routes:wrong-tool', case=dict(stream='tool', tool=tool), expected='argv %r' % ARGV.get(tool),
@@ -1107,7 +1123,7 @@ def table_case(ctx, tool, lines, intents, flags, perline=True, label='table', ve
     ctx.hist('user-plan:' + plan_class(incl, excl, exp))
     end_cmd = 'end %s %s' % (flags, plan_spec(incl, excl))
     ctx.hist('listener:%s:v4=%s,v6=%s' % (listen, flags[0], flags[1]))
-    tcase = dict(stream='table', tool=tool, flags=flags, listen=listen, verbose=verbose, clock=clock, real=real, regen=regen,
+    tcase = dict(stream='table', tool=tool, flags=flags, listen=listen, verbose=verbose, clock=clock, exit=rc, real=real, regen=regen,
                  incl=incl, excl=excl,
                  table=None if regen else hexb(output), strict=strict,
                  expect=None if regen else [list(e) for e in exp], gap=[list(e) for e in known_gap])
@@ -1150,6 +1166,7 @@ def table_case(ctx, tool, lines, intents, flags, perline=True, label='table', ve
         if name == 'AssertionError' and raised_line is None:
             # which payload did the builder try to send?  recompute from the real list_routes
             FakePopen.output = output
+            FakePopen.rc = rc
             p = Patches()
             old_err = sys.stderr
             try:
@@ -1159,6 +1176,7 @@ def table_case(ctx, tool, lines, intents, flags, perline=True, label='table', ve
                 rts = list(server.list_routes())
             finally:
                 p.restore()
+                FakePopen.rc = 0
                 helpers.verbose = 0
                 sys.stderr = old_err
             pl = ''.join('%d,%s,%d\n' % r for r in rts).encode()
@@ -1168,7 +1186,7 @@ def table_case(ctx, tool, lines, intents, flags, perline=True, label='table', ve
             big = len(pl) > 65535
             ctx.hist('delivery:assert')
             ctx.violation(KEY_BIG if big else KEY_DELIV,
-                          case=dict(stream='table-size', tool=tool, nlines=len(lines), payload_len=len(pl), verbose=verbose, clock=clock,
+                          case=dict(stream='table-size', tool=tool, nlines=len(lines), payload_len=len(pl), verbose=verbose, clock=clock, exit=rc,
                                     routes=len(rts), table=(hexb(output) if len(output) < 4000 else None),
                                     regen=('minimal:%d' % len(lines)) if label.startswith('minimal') else
                                           ('sized:%d' % len(pl)) if label.startswith('sized') else None),
@@ -1183,11 +1201,11 @@ def table_case(ctx, tool, lines, intents, flags, perline=True, label='table', ve
             if raised_line is None:
                 # per-line run did not locate it (perline off): find the first line that raises alone
                 for ln in lines:
-                    if line_real(tool, ln, verbose, clock).startswith('raise'):
+                    if line_real(tool, ln, verbose, clock, rc).startswith('raise'):
                         raised_line = ln
                         break
             ctx.violation(KEY_JUNK if raised_line is not None else KEY_DELIV,
-                          case=dict(stream='line', tool=tool, verbose=verbose, clock=clock, line=hexb(raised_line if raised_line is not None else output),
+                          case=dict(stream='line', tool=tool, verbose=verbose, clock=clock, exit=rc, line=hexb(raised_line if raised_line is not None else output),
                                     intent=['omit']),
                           expected='a line that cannot be interpreted is skipped; the other routes are advertised',
                           observed='server.main raised %s while listing routes: the server process ends' % name,
@@ -1197,11 +1215,11 @@ def table_case(ctx, tool, lines, intents, flags, perline=True, label='table', ve
     return log
 
 
-def line_oracle(ctx, tool, ln, intent, out, level=0, clock='none'):
+def line_oracle(ctx, tool, ln, intent, out, level=0, clock='none', rc=0):
     cls = out.split()[0]
     exp = expected_of(intent) if tool != 'x' else None
     if cls == 'raise':
-        ctx.violation(KEY_JUNK, case=dict(stream='line', tool=tool, verbose=level, clock=clock, line=hexb(ln), intent=list(intent)),
+        ctx.violation(KEY_JUNK, case=dict(stream='line', tool=tool, verbose=level, clock=clock, exit=rc, line=hexb(ln), intent=list(intent)),
                       expected=('advertise %s/%d' % exp) if exp else 'line skipped, no exception',
                       observed='list_routes raised ' + out.split()[1], kind='input')
         return
@@ -1222,13 +1240,13 @@ def line_oracle(ctx, tool, ln, intent, out, level=0, clock='none'):
             if ip.split('.')[0] in ('0', '127'):
                 ok = False
             if not ok:
-                ctx.violation(KEY_WRONG, case=dict(stream='line', tool=tool, verbose=level, clock=clock, line=hexb(ln), intent=list(intent)),
+                ctx.violation(KEY_WRONG, case=dict(stream='line', tool=tool, verbose=level, clock=clock, exit=rc, line=hexb(ln), intent=list(intent)),
                               expected='a canonical network address with a prefix length 0..32, or nothing',
                               observed=out, kind='input')
         return
     if got != exp:
         key = KEY_BAREHOST if (intent[0] == 'barehost' and got is None) else KEY_WRONG
-        ctx.violation(key, case=dict(stream='line', tool=tool, verbose=level, clock=clock, line=hexb(ln), intent=list(intent)),
+        ctx.violation(key, case=dict(stream='line', tool=tool, verbose=level, clock=clock, exit=rc, line=hexb(ln), intent=list(intent)),
                       expected=('advertise %s/%d' % exp) if exp else 'nothing advertised (default / 0.x / 127.x / not a route)',
                       observed=out, kind='input')
 
@@ -1287,9 +1305,9 @@ def delivery_oracle(ctx, tcase, exp, known_gap, strict, cr, nframes):
         ctx.violation(KEY_DELIV, case=tcase,
                       expected='plan = ROUTES, the user\'s includes unchanged, then every one of the %d advertised networks as 2,<w>,0,<ip>,0,0 '
                                '(whatever the user\'s own subnets are), the user\'s excludes, then NSLIST; '
-                               'one fw.start() (server verbosity %d, routing tool %s, clock while its output is read: %s; client listeners: real MultiListener, %s addresses, '
+                               'one fw.start() (server verbosity %d, routing tool %s exiting with status %s, clock while its output is read: %s; client listeners: real MultiListener, %s addresses, '
                                'IPv4 %s, IPv6 %s)'
-                               % (len(exp), tcase['verbose'], 'a real child process' if tcase['real'] else 'in memory', tcase.get('clock', 'none'),
+                               % (len(exp), tcase['verbose'], 'a real child process' if tcase['real'] else 'in memory', tcase.get('exit', 0), tcase.get('clock', 'none'),
                                   {'loop': 'loopback', 'wild': 'wildcard'}[tcase['listen']],
                                   'asked for' if tcase['flags'][0] == '1' else 'not asked for',
                                   'asked for' if tcase['flags'][1] == '1' else 'not asked for'),
@@ -1503,6 +1521,10 @@ def gen_cases(ctx):
     for ck in CLOCKS:
         logs.append(table_case(ctx, 'i', t2, [('omit',), ('omit',), ('route', '192.168.1.0', 24)], '101', clock=ck))
         logs.append(table_case(ctx, 'n', t1, [('omit',), ('omit',), ('omit',), ('omit',), ('route', '192.168.1.0', 24)], '101', clock=ck))
+    for st in sorted(set(EXIT_ROTATION)):
+        logs.append(table_case(ctx, 'i', t2, [('omit',), ('omit',), ('route', '192.168.1.0', 24)], '101', rc=st))
+        logs.append(table_case(ctx, 'n', t1, [('omit',), ('omit',), ('omit',), ('omit',), ('route', '192.168.1.0', 24)], '101', rc=st,
+                               real=True))
     return logs
 
 
@@ -1560,11 +1582,11 @@ def replay(ctx, rep):
     st = case.get('stream')
     if st == 'line':
         ln = common.unhex(case['line'])
-        out = line_real(case['tool'], ln, int(case.get('verbose') or 0), case.get('clock') or 'none')
+        out = line_real(case['tool'], ln, int(case.get('verbose') or 0), case.get('clock') or 'none', int(case.get('exit') or 0))
         c2 = common.Ctx('C17', 'quick', 0)
-        line_oracle(c2, case['tool'], ln, tuple(case.get('intent') or ['omit']), out, int(case.get('verbose') or 0), case.get('clock') or 'none')
-        return bool(c2.violations), 'list_routes (verbosity %s, clock %s) on %r: %s' % (
-            case.get('verbose') or 0, case.get('clock') or 'none', ln[:80], out)
+        line_oracle(c2, case['tool'], ln, tuple(case.get('intent') or ['omit']), out, int(case.get('verbose') or 0), case.get('clock') or 'none', int(case.get('exit') or 0))
+        return bool(c2.violations), 'list_routes (verbosity %s, clock %s, tool exit status %s) on %r: %s' % (
+            case.get('verbose') or 0, case.get('clock') or 'none', case.get('exit') or 0, ln[:80], out)
     if st == 'table-size':
         regen = case.get('regen')
         if regen and regen.startswith('minimal:'):
@@ -1574,7 +1596,7 @@ def replay(ctx, rep):
         else:
             lines = split_lines(common.unhex(case['table']))
         status, wire = run_server(case['tool'], b''.join(lines), verbose=int(case.get('verbose') or 0),
-                                  clock=case.get('clock') or 'none')
+                                  clock=case.get('clock') or 'none', rc=int(case.get('exit') or 0))
         return status[0] != 'sent', 'server.main on %d lines: %s' % (len(lines), ' '.join(status))
     if st == 'table':
         regen = case.get('regen')
@@ -1587,9 +1609,10 @@ def replay(ctx, rep):
             exp = [tuple(e) for e in (case.get('expect') or [])]
         verbose, real = int(case.get('verbose') or 0), bool(case.get('real'))
         clock = case.get('clock') or 'none'
-        status, wire = run_server(case['tool'], output, verbose=verbose, real=real, clock=clock)
-        how = 'server.main (verbosity %d, tool %s, clock %s) on %d bytes of tool output: ' % (
-            verbose, 'as a real child process' if real else 'in memory', clock, len(output))
+        rc = int(case.get('exit') or 0)
+        status, wire = run_server(case['tool'], output, verbose=verbose, real=real, clock=clock, rc=rc)
+        how = 'server.main (verbosity %d, tool %s exiting with status %d, clock %s) on %d bytes of tool output: ' % (
+            verbose, 'as a real child process' if real else 'in memory', rc, clock, len(output))
         if status[0] != 'sent':
             return True, how + ' '.join(status)
         nframes = wire.count(struct.pack('!ccHH', b'S', b'S', 0, ssnet.CMD_ROUTES))
